@@ -84,7 +84,6 @@ func c16RaceViolations(res *Result) {
 	res.Stats["race_blocks_inside_access_decision"] = int64(n)
 }
 
-
 // c16RaceSite: the innermost datahub function of an access stack.
 func c16RaceSite(stack string) string {
 	for _, l := range strings.Split(stack, "\n") {
